@@ -92,7 +92,7 @@ def gen_bad_request(rng, cfg, nwatch):
                        'missing_property', 'ill_typed_property', 'bad_option',
                        'bad_option', 'bad_option', 'bad_signal', 'duplicate',
                        'singleton', 'owner', 'nonobject_properties',
-                       'odd_waiting'])
+                       'odd_waiting', 'combo'])
     op = {'op': 'req', 'w': w, 'props': {}, 'waiting': rng.random() < 0.4,
           'place': 'now', 'defect': kind}
     p = op['props']
@@ -223,6 +223,15 @@ def gen_bad_request(rng, cfg, nwatch):
                   'start': rng.random() < 0.5})
         if rng.random() < 0.5:
             p['options'] = dict(rng.sample(VALID_OPTS, 2))
+    elif kind == 'combo':
+        # options that are fine one by one and constrain each other: if the
+        # request is refused, then as a whole
+        op['cmd'] = 'set'
+        op['defect'] = 'option_combination'
+        items = [('singleton', True), ('numprocesses', rng.choice([2, 3]))]
+        rng.shuffle(items)
+        items += rng.sample(VALID_OPTS, rng.choice([0, 1]))
+        p['options'] = dict(items)
     elif kind == 'singleton':
         op['cmd'] = 'set'
         op['defect'] = 'singleton_numprocesses'
